@@ -66,6 +66,39 @@ class _RaisingIter:
         return v
 
 
+class _LazyMapping(dict):
+    """A mapping that computes its values when they are asked for (like os.environ or a configparser section):
+    every access returns a fresh object, which is garbage as soon as the caller drops it."""
+    def __init__(self, d):
+        super().__init__()
+        self._d = dict(d)
+        for k in self._d:
+            dict.__setitem__(self, k, None)
+
+    def _make(self, v):
+        if isinstance(v, str):
+            return ''.join([v[:1], v[1:]]) if v else ''.join([])
+        if isinstance(v, int) and not isinstance(v, bool):
+            return int(str(v))
+        if isinstance(v, float):
+            return float(repr(v))
+        return copy.deepcopy(v)
+
+    def __getitem__(self, k):
+        return self._make(self._d[k])
+
+    def items(self):
+        for k in self._d:
+            yield k, self._make(self._d[k])
+
+    def values(self):
+        for k in self._d:
+            yield self._make(self._d[k])
+
+    def get(self, k, default=None):
+        return self._make(self._d[k]) if k in self._d else default
+
+
 class _BadMapping:
     def __init__(self, d):
         self.d = d
@@ -156,6 +189,10 @@ class World:
                 return self.r_at(path), self.m_at(path), None
             except (KeyError, IndexError, TypeError):
                 return 0, 0, None
+        if k == 'lazy':
+            # a mapping with at least three entries whose values are created on access (big ints / long strings: no interning)
+            d = {f'lz{i}': (10 ** 6 + 17 * i if i % 2 else f'lazy-value-number-{i}-' + 'x' * 20) for i in range(spec['n'])}
+            return _LazyMapping(d), dict(d), None
         if k == 'copy_of':
             # a shallow copy (copy.copy) of an existing container node: a new node sharing its (nested) children
             path = spec['path']
@@ -174,6 +211,8 @@ class World:
         """-> (model value, fault kind) without touching the real tree."""
         if spec['k'] == 'py':
             return dec(spec['v']), None
+        if spec['k'] == 'lazy':
+            return {f'lz{i}': (10 ** 6 + 17 * i if i % 2 else f'lazy-value-number-{i}-' + 'x' * 20) for i in range(spec['n'])}, None
         if spec['k'] == 'copy_of':
             try:
                 return copy.copy(self.m_at(spec['path'])), None
@@ -835,6 +874,8 @@ def _build_machine(max_steps):
             return {'k': 'node_at', 'sel': draw(sel)}
         if c == 3:
             return {'k': 'copy_of', 'sel': draw(sel)}
+        if c == 4:
+            return {'k': 'lazy', 'n': draw(st.integers(3, 8))}
         return {'k': 'py', 'v': enc(draw(py_values))}
 
     class Machine(RuleBasedStateMachine):
